@@ -27,7 +27,7 @@ def nontrivial(run, m):
 
 
 def jobs(tier, seed):
-    js = batches("conduct", scale(tier, 260, 5000), scale(tier, 20, 100), gen="mix", p_loop=0.15, P=PJ, gseed=seed,
+    js = batches("conduct", scale(tier, 260, 5000), scale(tier, 20, 100), gen="mix", p_loop=0.3, P=PJ, gseed=seed,
                  scheds=scale(tier, 2, 4), lazy=[0, 50, 80, 25], p_fail=0.15, name="free")
     js += batches("orders", scale(tier, 70, 1500), scale(tier, 5, 40), gen="dag", P=dict(PJ, nmax=5, nmin=3, p_items=0.0),
                   gseed=seed + 1, max_orders=scale(tier, 80, 720), max_completions=scale(tier, 6, 7), name="orders")
